@@ -22,11 +22,12 @@ func init() {
 			runC04(c)
 			sharedDeclaredRules(c)
 			runExportPred(c, "C04-EXPORT")
-			base(c, "STATE", "LOOP")
+			base(c, "STATE", "LOOP", "RULESRC")
 			runToStrCases(c, "C04-PATHKEY")
 			runC04Strip(c, "C04-STRIP")
 			runFieldIdentity(c, "C04-FIELDID")
 			runExemptType(c, "C04-EXEMPT")
+			runAllElems(c, "C04-ALLELEMS")
 		},
 	})
 }
